@@ -13,4 +13,4 @@ for seed in $seeds; do
     echo "seed=$seed $id exit=$code $(($(date +%s)-start))s :: $(echo "$res" | grep -E 'tier=|HARNESS|VIOLATION' | head -3 | tr '\n' ' ' | cut -c1-300)"
   done
 done
-[ -z "$VERIF_OUT" ] && rm -rf "$out"
+if [ -z "$VERIF_OUT" ]; then rm -rf "$out"; fi
